@@ -1929,6 +1929,12 @@ func (g Gateway) Uint32SliceDelete(ctx context.Context, in *hydrapb.Uint32SliceD
 			guardID := treasureObj.StartTreasureGuard(true)
 			defer treasureObj.ReleaseTreasureGuard(guardID)
 
+			// only a uint32 slice can lose values; any other content is a type mismatch, not an empty slice
+			if _, err := treasureObj.Uint32SliceSize(); err != nil {
+				errorsWhileDelete = append(errorsWhileDelete, fmt.Sprintf("%s: %s", pair.GetKey(), err.Error()))
+				return
+			}
+
 			if err := treasureObj.Uint32SliceDelete(pair.GetValues()); err != nil {
 				errorsWhileDelete = append(errorsWhileDelete, err.Error())
 			}
@@ -1938,7 +1944,7 @@ func (g Gateway) Uint32SliceDelete(ctx context.Context, in *hydrapb.Uint32SliceD
 			// check the length of the slice in the treasure
 			// if the length is 0, we can delete the treasure
 			size, err := treasureObj.Uint32SliceSize()
-			if err != nil || size == 0 {
+			if err == nil && size == 0 {
 				deleteTreasure = true
 			}
 
